@@ -285,7 +285,7 @@ pub fn run(o: &Opts, drv: &mut Driver, rep: &mut Report) {
     let mut rng = case_rng(o.seed, "c05");
     let thorough = o.tier == "thorough";
     let mut cx = Ctx { drv, rep, cache: HashMap::new(), line: String::new(), stream: String::new(), idx: 0 };
-    let rounds = (if thorough { 12 } else { 1 }) * o.scale;
+    let rounds = (if thorough { 4 } else { 1 }) * o.scale;
     for round in 0..rounds {
         cx.cache.clear();
         // session ids of lengths 0, 1, 32, 200; partners: random of the same length, one bit flipped, extended by a zero byte
